@@ -143,6 +143,11 @@ impl BlobIndexReader {
         }
         let count =
             (&buf[BlobIndex::COUNT_OFFSET..BlobIndex::COUNT_OFFSET + BlobIndex::COUNT_BYTES]).get_u32() as usize;
+        // The count comes from the device: an index that claims more entries than the buffer can hold is damaged.
+        if count > (buf.len() - BlobIndex::INDEX_OFFSET) / BlobEntryIndex::serialized_len() {
+            tracing::trace!(count, "[blob index reader]: entry count exceeds the blob index size");
+            return None;
+        }
         let indices = buf[BlobIndex::INDEX_OFFSET..BlobIndex::INDEX_OFFSET + count * BlobEntryIndex::serialized_len()]
             .chunks_exact(BlobEntryIndex::serialized_len())
             .map(BlobEntryIndex::read)
